@@ -107,6 +107,15 @@ SPECS = [
     # own position also when an earlier clause contains an escaped semicolon (';;')
     dict(id='S-Define-reserved-after-escape', text='A<i tal:define="a \'x;;y\'; __x e1">x</i>B',
          expect_error={'class': 'TranslationError', 'token': '__x'}, serves=['C11']),
+    # an invalid ${...} is reported with the expression as written, also when the text goes on with
+    # further braces (the delimiter search tries longer candidates first; the error that counts is the
+    # one for the expression itself)
+    dict(id='S-Interp-invalid-then-interp', text='A<p>a ${1 +} and ${e2} b</p>B',
+         expect_error={'class': 'ExpressionError', 'token': '1 +'}, serves=['C11', 'C06']),
+    dict(id='S-Interp-invalid-then-brace', text='A<p title="x ${1 +}px } y">t</p>B',
+         expect_error={'class': 'ExpressionError', 'token': '1 +'}, serves=['C11', 'C06']),
+    dict(id='S-Interp-invalid-last', text='A<p>${e2} and ${1 +}</p>B',
+         expect_error={'class': 'ExpressionError', 'token': '1 +'}, serves=['C11', 'C06']),
     dict(id='S-Attributes-invalid-after-escape', text='A<i tal:attributes="a \'x;;;;y\'; b 1 +">x</i>B',
          expect_error={'class': 'ExpressionError', 'token': '1 +'}, serves=['C11']),
     # ... or a character reference (statement values are decoded as a whole before they are parsed,
